@@ -8,6 +8,7 @@ import (
 	"go/ast"
 	"go/token"
 	"go/types"
+	"os"
 	"path/filepath"
 	"sort"
 	"strings"
@@ -54,6 +55,7 @@ type fsig3 struct {
 	rec      bool // self-recursive (a Fixpoint on fuel)
 	consumes []bool
 	gsig     *types.Signature
+	resClass []int // per Go result of pointer type: 0 a fresh object (or a value), 1 the receiver or a fresh object, 2 unknown
 }
 
 func (s *fsig3) nOut() int {
@@ -784,6 +786,7 @@ func (c *m3) translate3() (out string, err error) {
 	}
 	c.sig.fallible = c.fallible
 	c.sig.fuel = c.usesFuel
+	c.computeResClass()
 	for _, te := range c.p.typeErr {
 		if te.Pos >= c.bodyNode.Pos() && te.Pos < c.bodyNode.End() {
 			c.fail(fn, "type error inside the function: %s", te.Error())
@@ -987,6 +990,14 @@ func buildKernels3(repo string, specs []k3spec) (string, []string) {
 	if len(errs) > 0 {
 		return "", errs
 	}
+	// the constants of the stubs against the real packages
+	cerrs, cnotes := checkStubConstants(repo, g.imp)
+	for _, n := range cnotes {
+		fmt.Fprintln(os.Stderr, "gotrans: note:", n)
+	}
+	if len(cerrs) > 0 {
+		return "", cerrs
+	}
 	var sb strings.Builder
 	sb.WriteString(header3)
 	if len(g.sentinel) > 0 {
@@ -1101,3 +1112,239 @@ func isZeroLit(c *ctx, e ast.Expr) bool {
 }
 
 var _ = token.NoPos
+
+// ---------------------------------------------------------------------------
+// ownership of returned pointers.  A pointer is a copy of its object in the translation; that is sound
+// for a caller that writes through a pointer it received only if nobody else holds the object.
+
+// escaped: the local pointer variable o is stored somewhere (assigned to another variable, field or
+// element, put in a literal, appended)
+func (c *m3) escaped(o types.Object) bool {
+	esc := false
+	var stack []ast.Node
+	ast.Inspect(c.fn.Body, func(n ast.Node) bool {
+		if n == nil {
+			stack = stack[:len(stack)-1]
+			return true
+		}
+		stack = append(stack, n)
+		id, ok := n.(*ast.Ident)
+		if !ok || c.p.info.Uses[id] != o || len(stack) < 2 {
+			return true
+		}
+		switch p := stack[len(stack)-2].(type) {
+		case *ast.AssignStmt:
+			for _, r := range p.Rhs {
+				if r == ast.Expr(id) {
+					esc = true
+				}
+			}
+		case *ast.CompositeLit, *ast.KeyValueExpr:
+			esc = true
+		case *ast.CallExpr:
+			if f, ok := p.Fun.(*ast.Ident); ok && f.Name == "append" {
+				esc = true
+			}
+		case *ast.UnaryExpr:
+			if p.Op == token.AND {
+				esc = true
+			}
+		}
+		return true
+	})
+	return esc
+}
+
+// exprClass: 0 the pointer expression denotes a fresh object nobody else holds, 1 the receiver of this
+// function (or a fresh object), 2 unknown
+func (c *m3) exprClass(e ast.Expr) int {
+	e = stripParens(e)
+	if isNil(e) {
+		return 0
+	}
+	switch x := e.(type) {
+	case *ast.UnaryExpr:
+		if x.Op == token.AND {
+			if _, isLit := stripParens(x.X).(*ast.CompositeLit); isLit {
+				return 0
+			}
+			// &v of a local struct value that is returned: the local dies with the function
+			if id, ok := stripParens(x.X).(*ast.Ident); ok {
+				if o := c.obj(id); o != nil && c.isLocal(o) && c.isParam(o) < 0 && o != c.recvObj {
+					return 0
+				}
+			}
+		}
+	case *ast.Ident:
+		o := c.obj(x)
+		if o == c.recvObj && c.recvObj != nil {
+			return 1
+		}
+		if c.direct[o] && !c.escaped(o) {
+			return 0
+		}
+		if o != nil && c.isLocal(o) && c.isParam(o) < 0 {
+			return c.varClass(o)
+		}
+	case *ast.CallExpr:
+		if id, ok := x.Fun.(*ast.Ident); ok {
+			if b, isB := c.obj(id).(*types.Builtin); isB && b.Name() == "new" {
+				return 0
+			}
+		}
+		if path, name, ok := c.pkgCall(x); ok && freshFuncs3[path+"."+name] {
+			return 0
+		}
+		s, recv := c.calleeSig3(x)
+		if s == nil || len(s.resClass) == 0 {
+			return 2
+		}
+		cl := s.resClass[0]
+		if cl == 1 {
+			// the callee may return its receiver: fresh if the receiver expression is
+			if recv == nil {
+				return 2
+			}
+			r := stripParens(recv)
+			if id, ok := r.(*ast.Ident); ok {
+				o := c.obj(id)
+				if o == c.recvObj && c.recvObj != nil {
+					return 1
+				}
+				if o != nil && c.isLocal(o) && c.isParam(o) < 0 {
+					if _, isPtr := o.Type().Underlying().(*types.Pointer); !isPtr || c.direct[o] {
+						return 0 // a local struct value (or owned pointer): it dies with this function
+					}
+					return c.varClass(o)
+				}
+				return 2
+			}
+			return c.exprClass(r)
+		}
+		return cl
+	}
+	return 2
+}
+
+// varClass: the class of a local pointer variable = the worst class of its definitions
+func (c *m3) varClass(o types.Object) int {
+	if c.classBusy == nil {
+		c.classBusy = map[types.Object]bool{}
+	}
+	if c.classBusy[o] {
+		return 2
+	}
+	c.classBusy[o] = true
+	defer delete(c.classBusy, o)
+	worst, defs := 0, 0
+	ast.Inspect(c.fn.Body, func(n ast.Node) bool {
+		as, ok := n.(*ast.AssignStmt)
+		if !ok {
+			return true
+		}
+		for i, l := range as.Lhs {
+			id, isId := l.(*ast.Ident)
+			if !isId || c.obj(id) != o {
+				continue
+			}
+			defs++
+			cl := 2
+			if len(as.Lhs) == len(as.Rhs) {
+				cl = c.exprClass(as.Rhs[i])
+			} else if len(as.Rhs) == 1 {
+				// x, err := f(..): the class of f's i-th result
+				if call, isCall := as.Rhs[0].(*ast.CallExpr); isCall {
+					if s, recv := c.calleeSig3(call); s != nil && i < len(s.resClass) {
+						cl = s.resClass[i]
+						if cl == 1 {
+							cl = 2
+							if recv != nil {
+								if rid, ok := stripParens(recv).(*ast.Ident); ok {
+									if ro := c.obj(rid); ro != nil && c.isLocal(ro) && c.isParam(ro) < 0 && ro != c.recvObj {
+										cl = 0
+									}
+								}
+							}
+						}
+					}
+				}
+			}
+			if cl > worst {
+				worst = cl
+			}
+		}
+		return true
+	})
+	if defs == 0 {
+		return 2
+	}
+	return worst
+}
+
+// calleeSig3: the signature of a translated callee, and its receiver expression
+func (c *m3) calleeSig3(e *ast.CallExpr) (*fsig3, ast.Expr) {
+	switch f := e.Fun.(type) {
+	case *ast.Ident:
+		if fo, ok := c.obj(f).(*types.Func); ok && fo.Pkg() == c.p.tpkg {
+			return c.g.funcs[c.spec.pkg+":."+f.Name], nil
+		}
+	case *ast.SelectorExpr:
+		if path, name, ok := c.pkgCall(e); ok {
+			if dir, isRepo := repoDir(path); isRepo {
+				return c.g.funcs[dir+":."+name], nil
+			}
+			return nil, nil
+		}
+		if tv, ok := c.p.info.Types[f.X]; ok && tv.Type != nil && !tv.IsType() {
+			if n, isNamed := derefNamed(tv.Type); isNamed && n.Obj().Pkg() != nil {
+				if dir, isRepo := repoDir(n.Obj().Pkg().Path()); isRepo {
+					return c.g.funcs[dir+":"+n.Obj().Name()+"."+f.Sel.Name], f.X
+				}
+			}
+		}
+	}
+	return nil, nil
+}
+
+func (c *m3) computeResClass() {
+	n := len(c.sig.results)
+	c.sig.resClass = make([]int, n)
+	for i, r := range c.sig.results {
+		if r.k != mOpt && r.k != mSum {
+			continue
+		}
+		worst := 0
+		ast.Inspect(c.bodyNode, func(nd ast.Node) bool {
+			if _, isLit := nd.(*ast.FuncLit); isLit {
+				return false
+			}
+			rs, ok := nd.(*ast.ReturnStmt)
+			if !ok {
+				return true
+			}
+			cl := 2
+			switch {
+			case len(rs.Results) == n:
+				cl = c.exprClass(rs.Results[i])
+			case len(rs.Results) == 1 && n > 1:
+				if call, isCall := rs.Results[0].(*ast.CallExpr); isCall {
+					if s, recv := c.calleeSig3(call); s != nil && i < len(s.resClass) {
+						cl = s.resClass[i]
+						if cl == 1 && recv != nil {
+							cl = c.exprClass(recv)
+						} else if cl == 1 {
+							cl = 2
+						}
+					}
+				}
+			case len(rs.Results) == 0 && i < len(c.named):
+				cl = c.varClass(c.named[i])
+			}
+			if cl > worst {
+				worst = cl
+			}
+			return true
+		})
+		c.sig.resClass[i] = worst
+	}
+}
